@@ -140,10 +140,12 @@ def arm_blocks(f, mf, flag):
     return arms
 
 
-def atomic_conds(blocks):
+def atomic_conds(blocks, inits=None):
     out = []
     for b in blocks:
         c = C.term_cond(b)
+        if c is not None and inits:
+            c = C.resolve_flag(c, inits)
         c0 = X.strip(c) if c is not None else None
         if isinstance(c0, dict) and not (c0.get("k") == "bin" and c0.get("op") in ("&&", "||")) \
                 and b["term"].get("kind") in ("IfStmt", "BinaryOperator"):
@@ -277,7 +279,7 @@ def check(ctx, fx):
         for f in sorted(fx.fns(cls + "::set_host_or_hostname"), key=lambda x: x["key"]):
             inst = "<true>" if "<true>" in f["key"] else "<false>"
             import collections
-            conds = list(atomic_conds(f["blocks"]))
+            conds = list(atomic_conds(f["blocks"], C.single_inits(f)))
             keep = collections.Counter()
             for c in conds:
                 if c in ("has_opaque_path", "HAS_PORT", "has_credentials()", "is_special()", "!is_special()", "BUFFER_EMPTY",
